@@ -1012,25 +1012,25 @@ pub fn main(args: &Args) -> i32 {
     for k in 0..4 {
         let alpha = alphabet(k);
         let total = enumerate::count_strings(alpha.len(), depth);
-        vcommon::par_for(total, 64, |n| {
+        crate::osrv::par_items(total, 64, &report, &states, |n, acc| {
             let mut idx = vec![];
             enumerate::nth_string(alpha.len(), n, &mut idx);
             let h: Vec<POp> = idx.iter().map(|a| alpha[*a].clone()).collect();
             match run_history_k(k, &h, false) {
                 Exec::DeadPrefix(_, _) => {
                     dead.fetch_add(1, Relaxed);
-                    report.outcome("extends a history whose last call already panicked the server (pruned)");
+                    acc.outcome("extends a history whose last call already panicked the server (pruned)");
                 }
                 Exec::Last { model, res, sigs, snap } => {
-                    report.eval(1);
+                    acc.evals += 1;
                     histories.fetch_add(1, Relaxed);
                     transitions.fetch_add(h.len() as u64, Relaxed);
                     let (vs, class) = check(k, &h, &model, &res, &sigs, snap.as_ref());
-                    report.outcome(&class);
+                    acc.outcome(&class);
                     if let Some(s) = &snap {
-                        states.lock().unwrap().insert(hash64(&(k, s)));
+                        acc.states.push(hash64(&(k, s)));
                     }
-                    report.nontrivial(hash64(&(k, &model, h.last(), res.as_ref().ok(), &sigs)));
+                    acc.nontrivial.push(hash64(&(k, &model, h.last(), res.as_ref().ok(), &sigs)));
                     if hash64(&(k, n)) % (total as u64 / 3).max(1) == 0 {
                         report.sample(json!({
                             "history": show_history(k, &h),
